@@ -103,6 +103,11 @@ def sut_location(tb) -> str:
 
 
 def exception_discrepancy(prop: str, exc: BaseException) -> Discrepancy:
+    frames = traceback.extract_tb(exc.__traceback__)
+    if frames and not any("/rnapolis/" in fr.filename for fr in frames):
+        # no frame of the code under test on the stack: the harness itself failed - never a violation
+        fr = frames[-1]
+        raise HarnessError(f"harness exception {type(exc).__name__}: {str(exc)[:200]} at {os.path.basename(fr.filename)}:{fr.lineno} ({fr.name})")
     loc = sut_location(exc.__traceback__)
     return D(
         f"{prop}:exception:{type(exc).__name__}@{loc}",
